@@ -55,6 +55,10 @@ def rand_spec(rng):
 
 def gen(ctx):
     rng = ctx.rng
+    # several threads decoding at the same time (each its own buffer): the decoder shares nothing between threads
+    for _ in range(200 if ctx.thorough else 20):
+        k = rng.choice([2, 2, 3, 4, 8])
+        yield Case("DECPAR", " ".join(W.hx(W.rand_valid(rng)[1]) for _ in range(k)), tags=("concurrent-decode",))
     # a well-formed message at the head of a buffer around and beyond 64 KiB (length arithmetic must not be done in 16 bits)
     import struct as _st
     for msg in (W.enc_ready(7), W.enc_measure(3, 9, [1, 2, 3]), W.enc_create(1, 2, 3, 4, 5, 6, 7, b"reno"),
